@@ -155,6 +155,7 @@ func (p *PRNG) EdgeLen(max int, edges ...int) int {
 // crypto/internal/randutil.MaybeReadByte cannot shift the main stream.
 type Stream struct {
 	main, side *PRNG
+	buf        []byte
 	// faults
 	MaxChunk  int   // >0: each Read returns at most MaxChunk bytes (short reads)
 	FailAfter int   // >=0: return Err once that many bytes were served; -1 = never
@@ -204,7 +205,14 @@ func (s *Stream) Read(b []byte) (int, error) {
 			b[i] = 0xff
 		}
 	default:
-		s.main.Fill(b[:n])
+		// byte-exact contiguous stream, independent of how reads are chunked
+		for i := 0; i < n; i++ {
+			if len(s.buf) == 0 {
+				s.buf = s.main.Bytes(8)
+			}
+			b[i] = s.buf[0]
+			s.buf = s.buf[1:]
+		}
 	}
 	s.Served += n
 	return n, nil
